@@ -261,6 +261,9 @@ def c02_witnesses(tier='quick'):
     # literal-then-operator bounds (`less = 1 << 4`): refused today; "refused or enforced as written" is decided on the corpus
     # declarations with expect = either (a tree that accepts them has to enforce 16, not 1)
     add('lit-then-op-twin', '#[nutype(validate(less = (1 << 4)))]\npub struct T(i32);\n', 'pass', 'twin: the parenthesised expression is accepted')
+    add('foreign-limit', '#[nutype(validate(less_or_equal = u8::MAX))]\npub struct T(i32);\n', {'fail': None, 'msg': None},
+        '`less_or_equal = u8::MAX` on an i32 newtype is a type error, not read as i32::MAX')
+    add('own-limit-twin', '#[nutype(validate(less_or_equal = i32::MAX))]\npub struct T(i32);\n', 'pass', 'twin: the inner type\'s own limit is accepted')
     add('neg-const', '#[nutype(validate(greater = -K))]\npub struct T(i32);\n', 'pass', '`greater = -K` is accepted (its meaning is checked on the MIR level)')
     add('neg-float-const', '#[nutype(validate(greater = -KF))]\npub struct T(f64);\n', 'pass', '`greater = -KF` is accepted')
     return ws
